@@ -546,6 +546,11 @@ fn run_meta<K: KeyT, V: ValT>(a: &Args) {
         for &i in o3.iter().take(rng.gen_range(0..3)) {
             ex(&mut w, ins(3, keys[i], vals[i]));
         }
+        // in half of the cases the second map is then overwritten by clone_from of the third one (a
+        // source that is mid-resize, into a destination with another allocation and hasher state)
+        if rng.gen_bool(0.5) {
+            ex(&mut w, json!({"op":"CloneFrom","s":3,"d":2}));
+        }
         // observations
         let observe = |w: &mut World<K, V>, ex: &mut dyn FnMut(&mut World<K, V>, Value)| {
             for (a_, b_) in [(1, 1), (1, 2), (2, 1), (2, 3), (3, 2), (1, 3), (3, 1), (3, 3)] {
